@@ -23,7 +23,7 @@ mode 'sweep' does this for EVERY k = 0, 1, 2, ... until the search finishes
 import copy
 import pickle
 
-from ..core import Violation
+from ..core import Violation, pickle_roundtrip
 from ..ref import specval
 from . import search_common as S
 from .. import seams
@@ -164,8 +164,7 @@ def restore(sim, snap, searcher, inst):
 def crash_and_twins(sim, R, ctx, inst, on_spec, k_label):
     """At a crash point: pickle round trip, equality, twin continuation."""
     css = sim.searcher
-    b = pickle.dumps(css)
-    restored = pickle.loads(b)
+    restored = pickle_roundtrip(css, "C17")
     ctx.fault("crash_pickle_restart")
     if not restored == css:
         raise Violation(
